@@ -23,7 +23,8 @@ import shutil
 
 from hypothesis import strategies as st
 
-from .. import core, crash
+from .. import core
+from ..ref import faultpoints as fp
 
 ID = "C30"
 TITLE = "World-file updates record exactly the requested entries"
@@ -394,7 +395,7 @@ def _crash_part(ctx, env, case, pristine, mem, op, _unused):
 
         wd = fresh("dry")
         old = _read(os.path.join(wd, "world"))
-        dry = crash.dry_run(make_op(wd), [wd])
+        dry = fp.log_run(make_op(wd), [wd])
         evals += 1
         if dry.status != "completed":
             exc = (dry.exc or dry.status).split(":")[0]
@@ -404,33 +405,48 @@ def _crash_part(ctx, env, case, pristine, mem, op, _unused):
         if not _verify_disk(ctx, case, os.path.join(wd, "world"), new_set, "final add (dry run)", desc):
             return evals
         ctx.count("events_total", len(dry.events))
-        for k, mode in crash.points(dry.events):
-            if ctx.deadline is not None and ctx.out_of_time():
-                ctx.count("enumeration_cut_by_budget")
-                break
-            wd = fresh(f"{k}{mode}")
-            res = crash.inject(make_op(wd), [wd], k, mode)
-            if res.status in ("died", "not-reached"):
-                raise core.HarnessError(f"injection {k}/{mode} ended {res.status}")
+        for k, mode, res, wd in fp.injections(ctx, dry.events, fresh, make_op):
             ev = dry.events[k - 1]
             what = f"{mode} event {k}/{len(dry.events)} {ev['ev']} {ev.get('path')}"
-            if res.status == "raised" and mode != "eio":
-                raise core.HarnessError(f"{what}: flush raised without a fault: {res.exc}")
             got = _read(os.path.join(wd, "world"))
             evals += 1
-            ctx.count(f"inject_{mode}")
             if got != old and got != new:
                 kind = "truncated" if got == b"" else ("missing" if got is None else "partial")
                 ctx.violation(f"atomic:world-{kind}", case, f"{what}: world file is {got!r}; old={old!r} new={new!r}")
             elif res.status == "completed" and got != new:
                 ctx.violation("atomic:completed-flush-not-visible", case, f"{what}: flush returned but the file is still old")
-            shutil.rmtree(wd, ignore_errors=True)
     finally:
         shutil.rmtree(base, ignore_errors=True)
     return evals
 
 
 # ---------------------------------------------------------------- runner glue
+
+def smoke_cases():
+    """small deterministic family run first on every run: every slot shape through add and remove (pmerge call site and
+    direct), removal of a slot when only the unslotted / another entry is recorded (must leave it alone), re-open,
+    and flushes under full crash/EIO enumeration incl. death right after each rename"""
+    world = "# world\ndev-lang/python\ndev-lang/python:3.11\n\ndev-util/a\ndev-util/b:2\n=dev-util/c-1.0-r1\nsys-libs/z:stable\n"
+    out = []
+    for via in ("pmerge", "direct"):
+        ops = []
+        for a in ("dev-util/y:10", "dev-util/x:3.11", "dev-util/w:0", "=dev-util/v-2.7.18", "=dev-util/u-1.0-r1:2+x_y-z",
+                  "dev-util/t:5.4.3/9=", "dev-util/s:*", "dev-util/r:_a", "dev-util/a:2"):
+            ops.append({"op": "add", "atom": a, "via": via})
+        ops.append({"op": "flush"})
+        for a in ("dev-lang/python:3.11", "sys-libs/z:stable", "dev-util/y:10", "dev-util/b:2/3=", "=dev-util/a-1:0"):
+            ops.append({"op": "remove", "atom": a, "via": via})
+        ops += [{"op": "flush"}, {"op": "reopen"}]
+        out.append({"world": world, "ops": ops, "crash": False})
+        # removing a slot that is not recorded must not touch the unslotted / differently slotted entry
+        for a in ("dev-lang/python:3.12", "dev-util/a:1", "dev-util/b:22", "dev-util/b:0", "sys-libs/z:0", "dev-util/nothere:3.11"):
+            out.append({"world": world, "ops": [{"op": "remove", "atom": a, "via": via}, {"op": "flush"}, {"op": "reopen"}], "crash": False})
+    for a, v in (("dev-util/y:3.11", "pmerge"), ("=dev-util/q-1.0", "direct+flush"), ("dev-lang/python", "pmerge")):
+        out.append({"world": world, "ops": [{"op": "remove", "atom": "dev-util/a", "via": "direct"},
+                                            {"op": "add", "atom": a, "via": v}], "crash": True})
+    out.append({"world": "", "ops": [{"op": "add", "atom": "dev-util/y:10", "via": "pmerge"}], "crash": True})
+    return out
+
 
 def _interleave(a, b):
     """alternate the two task kinds so that both make progress whatever the job count / budget"""
@@ -441,17 +457,23 @@ def _interleave(a, b):
 
 
 def plan(tier, seed):
+    # quick is sized for the verification host (forked injections ~0.1 s each, not scaling over workers)
     if tier == "quick":
-        return _interleave([{"task": "crash", "examples": 30} for _ in range(8)], [{"task": "hist", "examples": 500} for _ in range(8)])
-    return _interleave([{"task": "crash", "examples": 1200} for _ in range(16)], [{"task": "hist", "examples": 15000} for _ in range(16)])
+        return [{"task": "smoke"}] + _interleave([{"task": "hist", "examples": 150} for _ in range(8)],
+                                                  [{"task": "crash", "examples": 12} for _ in range(4)])
+    return [{"task": "smoke"}] + _interleave([{"task": "hist", "examples": 15000} for _ in range(16)],
+                                              [{"task": "crash", "examples": 1200} for _ in range(16)])
 
 
 def run_task(ctx, task, **kw):
     env = Env()
-    if task == "hist":
-        core.hyp_run(ctx, cases(False), lambda c: None if ctx.out_of_time() else check_case(ctx, c, env), kw["examples"], chunk=250)
+    if task == "smoke":
+        for c in smoke_cases():
+            check_case(ctx, c, env)
+    elif task == "hist":
+        core.hyp_run(ctx, cases(False), lambda c: None if ctx.out_of_time() else check_case(ctx, c, env), kw["examples"], chunk=150)
     elif task == "crash":
-        core.hyp_run(ctx, cases(True), lambda c: None if ctx.out_of_time() else check_case(ctx, c, env), kw["examples"], chunk=30, seed_salt=7)
+        core.hyp_run(ctx, cases(True), lambda c: None if ctx.out_of_time() else check_case(ctx, c, env), kw["examples"], chunk=12, seed_salt=7)
     else:
         raise core.HarnessError(f"unknown task {task}")
 
